@@ -37,6 +37,8 @@ def _rewrite_casts(line: str, lineno: int) -> str:
 
 def transliterate(src: str, name: str = "<pyx>") -> tuple[str, dict[str, Any]]:
     """returns (python_source, info) ; info: cdivision flag, functions with their C types"""
+    # 'long long' (and 'long', 64-bit on the LP64 targets the extensions are built for) -> ctype 'long'
+    src = re.sub(r"\blong\s+long\b", "long", src)
     lines = src.split("\n")
     cdivision = any(re.match(r"#\s*cython:\s*cdivision\s*=\s*True", l) for l in lines[:20])
     out: list[str] = []
